@@ -108,6 +108,19 @@ CLAIMED = {
              "holds by construction of the functional model and is tied to the code (receiver compared before/after each call).",
         technique="Lean 4 proof (sorted prefix-free lists, order theory of Python tuple comparison) + correspondence check",
         design_ref="6/C11"),
+    "C07": dict(
+        text="Theorems for EVERY store (= every subset of missing bodies, plain or behind a ScratchDB cache, pruning or not) and "
+             "every hashing: a lookup either returns the complete-database value or raises MissingTrieNode and nothing else "
+             "(get_same_or_missing, get_error_kind) naming a hash that is absent, with the trie's root and the requested key, being the "
+             "root's hash or that of the hashed subtree exactly at the reported nibble prefix of the key (get_missing_truthful, "
+             "fetches_on_path); likewise traverse/traverse_from with relative prefixes (traverse_truthful); no fetch follows a "
+             "write in _set/_delete (set/delete_reads_before_writes) hence a set/delete that raises MissingTrieNode leaves database, "
+             "scratch cache, reference counts and pending prunes exactly as before (set_delete_missing_atomic); supplying the "
+             "reported node makes strict progress and never re-asks for it (get_retry_progress). Not proved: that the hash reported by "
+             "a failing set/delete lies on the requested path (incl. the normalisation sibling) and retry progress for set/delete - "
+             "tied by the correspondence and the oracle (path walker over the complete database; retry loop run to convergence).",
+        technique="Lean 4 proof (event-order invariant ReadsFirst, executor case analysis) + correspondence check with node removal",
+        design_ref="6/C07"),
 }
 REASON_PENDING = "check not built yet in this revision (work in progress, see DESIGN.md section 10)"
 
